@@ -4,7 +4,7 @@ package fieldpath
 
 /*@
 extern GetNestedField
-  props C16 C05 C20
+  props C16 C05 C20 C14
   option pure
 
 extern IsNestedField
